@@ -61,15 +61,15 @@ pub fn int_values(n: usize, allow_extreme: bool) -> BoxedStrategy<(String, Vec<i
             3,
             (
                 prop_oneof![
-                    Just(1000i64),
-                    Just(-1000i64),
-                    Just(-128i64),
-                    Just(1i64 << 40),
-                    Just(-(1i64 << 40)),
-                    -100_000i64..100_000,
+                    1 => Just(1000i64),
+                    1 => Just(-1000i64),
+                    1 => Just(-128i64),
+                    1 => Just(1i64 << 40),
+                    1 => Just(-(1i64 << 40)),
+                    1 => -100_000i64..100_000,
                     // windows that end at the top / start at the bottom of i64 (resolved against the width below)
-                    Just(i64::MAX),
-                    Just(i64::MIN)
+                    2 => Just(i64::MAX),
+                    2 => Just(i64::MIN)
                 ],
                 prop_oneof![Just(255i64), Just(65535i64), Just(u32::MAX as i64), 1i64..300],
             )
@@ -77,7 +77,9 @@ pub fn int_values(n: usize, allow_extreme: bool) -> BoxedStrategy<(String, Vec<i
                     // i64::MAX is the engine's NULL marker for integers, so the top window ends one below it
                     let base = if base == i64::MAX { i64::MAX - 1 - width } else if base == i64::MIN { i64::MIN + 1 } else { base };
                     vec(0i64..=width, n1).prop_map(move |v| {
-                        let cls = if width <= 255 {
+                        let cls = if base == i64::MIN + 1 || base == i64::MAX - 1 - width {
+                            "int:i64_edge_window"
+                        } else if width <= 255 {
                             "int:u8_offset"
                         } else if width <= 65535 {
                             "int:u16_offset"
